@@ -1,4 +1,5 @@
 import OnlVerif.Kernel.Step
+import OnlVerif.Kernel.TimeCell
 import OnlVerif.Util.Timer
 /-!
 # The Timer as processes *on the kernel model `K`*
@@ -49,26 +50,6 @@ Encoding:
 * the controller is `for gap, op in script: yield env.timeout(gap); timer.stop() | timer.restart(τ)`; it logs each
   call (`log "stop"` / `log "restart" τ`) so that the trace carries the whole call/fire history.
 -/
-
-/-- how a time value is kept in a shared cell -/
-class TimeCell (τ : Type) where
-  enc : τ → Val
-  dec : Val → Option τ
-
-/-- a `float` is kept by its bit pattern -/
-instance : TimeCell Float where
-  enc x := .int (x.toBits.toNat : Int)
-  dec
-    | .int i => some (Float.ofBits i.toNat.toUInt64)
-    | _ => none
-
-/-- a rational is kept as sign, numerator, denominator (in the three number fields of a `Val.preempted`, the only
-constructor with three numbers that `freezeVal` leaves alone when a value is logged) -/
-instance : TimeCell Rat where
-  enc x := .preempted (some (if x.num < 0 then 1 else 0)) x.num.natAbs x.den
-  dec
-    | .preempted (some sg) n d => some (mkRat (if sg = 1 then -(n : Int) else (n : Int)) d)
-    | _ => none
 
 /-- local states of the two generator functions (where each one is suspended, and the instant it resumes at) -/
 inductive TSt (τ : Type) where
